@@ -29,7 +29,8 @@ RUN_MODULE = 'Run.C02'
 COQ_EXTRA = ['Gen.C02HashSpec_ok']
 THEOREMS = [
     'C02_encode_injective', 'C02_encode_injective_gen', 'C02_lang_injective', 'C02_single_change',
-    'C02_boundary_shift', 'C02_split_merge', 'C02_name_value_shift', 'C02_list_move', 'C02_key_iff',
+    'C02_boundary_shift', 'C02_split_merge', 'C02_name_value_shift', 'C02_list_move',
+    'C02_driver_mode_table', 'C02_driver_mode_separates', 'C02_key_iff',
     'C02_pp_encode_injective', 'C02_pp_encode_injective_canon', 'C02_pp_time_salt_injective', 'C02_pp_single_change', 'C02_pp_boundary_shift', 'C02_pp_name_value_shift',
     'C02_pp_list_move', 'C02_pp_key_iff', 'C02_pp_env_covers_main', 'C02_required_vars_hashed',
     'C02_lang_pp_boundary_refuted', 'C02_extra_pp_boundary_refuted', 'C02_pp_lang_path_boundary_refuted',
@@ -67,7 +68,7 @@ HEX = b'0123456789abcdef'
 
 
 def cleanup():
-    for d in [ROOT, CORPUS_ROOT] + glob.glob('/dev/shm/vh-c02-root-*'):
+    for d in [ROOT, CORPUS_ROOT] + glob.glob('/dev/shm/vh-c02-root-*') + glob.glob('/dev/shm/vh-c02-drv-*'):
         pid = d.rsplit('-', 1)[-1]
         if d.startswith('/dev/shm/vh-c02-root-') and pid.isdigit() and os.path.exists('/proc/' + pid):
             continue        # a harness process of a concurrent run still lives in it
@@ -145,6 +146,11 @@ def side_conditions(s):
     res.append(('side-condition:env_main subset of env_pp (S16)', not miss,
                 'in hash_key\'s CACHED_ENV_VARS but not in the preprocessor-level key\'s: %s' % miss if miss else ''))
     res.append(('side-condition:time_gate', bool(s['time_gate']), ''))
+    bad = ['%s (%s) gets plusplus()=%s' % (k, n, pp) for k, n, pp, _ in s.get('drivers', []) if bool(pp) != k.endswith('++')]
+    handled = [d[0] for d in s.get('drivers', [])]
+    bad += ['the detection script prints %s but no match arm handles it' % i for i in s.get('script_ids', [])
+            if i.endswith('++') and i not in handled]
+    res.append(('side-condition:drivers_ok (detect_c_compiler: a compiler_id yields plusplus() iff it ends in "++")', not bad, '; '.join(bad)))
     return res
 
 
@@ -562,6 +568,75 @@ def gen_ppkey_root(rng, tier):
     return out
 
 
+VERSIONS = [None, b'"13.2.0"', b'"Ubuntu Clang 16.0.6 (23ubuntu4)"', b'"Apple LLVM 15.0.0 (clang-1500.3.9.4)"', b'4.2.1', b'']
+# arms of detect_c_compiler that need further probes (or another front end) before a key exists: not driven here
+INDIRECT = ('Msvc', 'Nvcc')
+
+
+def gen_driver(rng, tier):
+    s = load_spec()
+    kinds = [d[0] for d in s.get('drivers', []) if d[1] not in INDIRECT]
+    indirect = [d[0] for d in s.get('drivers', []) if d[1] in INDIRECT]
+    versioned = set(d[0] for d in s.get('drivers', []) if d[3])
+    kinds += [i for i in s.get('script_ids', []) if i not in kinds and i not in indirect]      # e.g. "unknown"
+    out = []
+    for _ in range(60 if tier == 'quick' else 600):
+        ks = rng.shuffle(kinds)
+        ds = []
+        for k in ks:
+            exe = rng.choice([b'c++', b'g++', b'clang++', b'nvc++'] if k.endswith('++') else [b'cc', b'gcc', b'clang', b'nvc'])
+            ds.append([exe, k.encode(), []])
+        v = rng.choice(VERSIONS)
+        for d in ds:
+            # a compiler struct without a `version` field (TaskingVX) ignores what the probe reports
+            d[2] = [] if v is None or d[1].decode() not in versioned else [v]
+        exe_bytes = rng.choice([b'', b'\x7fELF', gen_bytes(rng, 30, True)])
+        out.append([[k.encode() for k in ks], ds, gen_text(rng, 30), exe_bytes])
+    return out
+
+
+def monitor_driver(case, out):
+    labels, ds, ppt, exe = case
+    vs = []
+    if not isinstance(out, list) or len(out) != len(ds):
+        return ['malformed implementation output %r' % (out,)]
+    ids = load_spec().get('script_ids', [])
+    for d, k in zip(ds, out):
+        kind = d[1].decode('latin-1')
+        if k in (b'panic', b'err', b'cannot_cache') or (k == b'undetected' and kind.endswith('++') and kind in ids):
+            vs.append('compiler_id=%s (which the detection script can print): no key (%s)' % (kind, k.decode()))
+    for i in range(len(ds)):
+        for j in range(i + 1, len(ds)):
+            ki, kj = out[i], out[j]
+            if not isinstance(ki, bytes) or not isinstance(kj, bytes) or len(ki) != 64 or len(kj) != 64:
+                continue
+            a, b = ds[i][1].decode('latin-1'), ds[j][1].decode('latin-1')
+            if a.endswith('++') != b.endswith('++') and ki == kj:
+                vs.append('driver mode lost: the same binary (same digest, same version %r) detected as %s and as %s gets ONE key %s '
+                          'for `-c foo.c -o foo.o` with the same preprocessor output: a C object would be served for the C++ driver'
+                          % (ds[i][2], a, b, ki.decode()))
+    return vs[:4]
+
+
+def stats_driver(case, out):
+    return ['kind=%s:%s' % (d[1].decode('latin-1'), 'key' if isinstance(k, bytes) and len(k) == 64 else k.decode() if isinstance(k, bytes) else '?')
+            for d, k in zip(case[1], out if isinstance(out, list) else [])]
+
+
+def shrink_driver(case):
+    labels, ds, ppt, exe = case
+    if len(ds) > 2:
+        def family(k):
+            k = k.decode('latin-1')
+            return {'g++': 'gcc'}.get(k, k[:-2] if k.endswith('++') else k)
+        pairs = [(i, j) for i in range(len(ds)) for j in range(i + 1, len(ds))]
+        pairs.sort(key=lambda ij: family(ds[ij[0]][1]) != family(ds[ij[1]][1]))      # siblings of one family first
+        for i, j in pairs:
+            yield [[labels[i], labels[j]], [ds[i], ds[j]], ppt, exe]
+    if ppt:
+        yield [labels, ds, b'', exe]
+
+
 def gen_lp(rng, tier):
     out = [b'', b'a', b'\0', bytes(range(256)), b'=' * 61, b'x' * 255, b'x' * 256, b'x' * 257, b'y' * 65536, b'z' * 65537]
     for _ in range(3000 if tier == 'quick' else 30000):
@@ -779,6 +854,11 @@ def legs(tier):
             rule='same for preprocessor_cache_entry_hash_key with a real input file per request (paths with spaces, '
                  'non-UTF-8 bytes, tag-like components), time-macro gate, both allow-lists; files with __DATE__ / '
                  '__TIMESTAMP__ get the mtime and SOURCE_DATE_EPOCH of the case (the date is the day of the run)'),
+        Leg('driver', gen_driver, monitor=monitor_driver, stats=stats_driver, shrink=shrink_driver, compare=CHAIN,
+            rule='every compiler_id the translator finds in detect_c_compiler (arms that build a compiler directly, plus '
+                 'unhandled ids), all for ONE executable (same bytes, same version): real get_compiler_info through a '
+                 'mock process creator, real parse_arguments + generate_hash_key; the model takes plusplus from the '
+                 'translated table; a C and a C++ driver kind must never share the key'),
         Leg('ppkey-root', gen_ppkey_root, monitor=make_monitor('p'), classify=classify, stats=stats, shrink=shrink,
             compare=CHAIN,
             rule='the same leg inside a private root directory (chroot under /dev/shm), so that absolute paths which '
@@ -786,9 +866,192 @@ def legs(tier):
     ]
 
 
+# ------------------------------------------------------------------ search guided by the OBSERVED length prefix
+# The injectivity proof leans on the shape of what `OsString::hash` feeds before the bytes (8 bytes, the last one NUL).
+# The search below does not assume it: it reads the real prefix p(n) off the `lp` harness leg and builds the requests
+# that would collide if p(n) could continue / be continued by a neighbouring, undelimited component (language tag,
+# 64-hex extra hashes, "=" of a variable, preprocessor text, input path).  With the real 8-byte prefix it finds no
+# candidate at all; with any other encoding the candidates are evaluated on the REAL key functions.
+
+def learn_prefix(nmax=420):
+    """n -> the bytes that reach the Digest before an n-byte string hashed through HashToDigest (harness leg lpx:
+    the real digest is matched against candidate announcements); None if there is a suffix / no match"""
+    table = {}
+    for f in (b'x', b'Q'):
+        lines = [sx.dumps(f * n) for n in range(nmax)]
+        outs = pipeline.run_sharded([pipeline.harness_bin(HARNESS_BIN), 'lpx'], lines)
+        for n, o in enumerate(outs):
+            v = pipeline.parse_out(o)
+            if not (isinstance(v, list) and len(v) == 2 and isinstance(v[0], bytes) and v[1] == b''):
+                continue                # unknown announcement (or a terminator) for this length: not used
+            if table.setdefault(n, v[0]) != v[0]:
+                return None             # depends on the contents: not a length announcement
+    return table or None
+
+
+def printable_fill(n, start=b''):
+    body = start + b'-DADVERSARIAL_MACRO_NAME=' * (n // 20 + 1)
+    return body[:n]
+
+
+def solve_len(p, z):
+    """n and a with  p(n) ++ a == z  and  len(a) == n"""
+    for n in range(max(0, len(z) - 12), len(z) + 1):
+        if n in p and len(p[n]) + n == len(z) and z.startswith(p[n]):
+            return z[len(p[n]):]
+    return None
+
+
+def adversarial_groups(p, rng):
+    """-> {'key': [group..], 'ppkey': [group..]} built from the observed prefix table p"""
+    spec = load_spec()
+    tags = [(n.encode(), t) for n, t in spec['tags'] if n in HARNESS_LANGS]
+    out = {'key': [], 'ppkey': []}
+    d = gen_hex64(rng)
+    text = b'# 1 "x.c"\nint x;\n'
+    base_c = [d, 0, b'C', [], [], [], text]
+    base_p = lambda i: [d, 0, b'C', [], [], [], ('%s/adv/%d/x.c' % (ROOT, i)).encode(), b'int x;\n', 0, 1700000000, 0, [], today()]
+    serial = [0]
+
+    def both(label, fa, fb):
+        a, b = list(base_c), list(base_c)
+        fa(a); fb(b)
+        out['key'].append([[b'base', label], [a, b]])
+        serial[0] += 1
+        a, b = base_p(serial[0]), base_p(serial[0])
+        fa(a); fb(b)
+        out['ppkey'].append([[b'base', label], [a, b]])
+
+    # (a) language tag <-> first argument:  (l1, [a..]) vs (l2, [b..]) with tag(l2) = tag(l1) ++ s and p(|a|) a = s p(|b|) b
+    for l1, t1 in tags:
+        for l2, t2 in tags:
+            if not (t2.startswith(t1) and len(t2) > len(t1)):
+                continue
+            sfx = t2[len(t1):]
+            found = 0
+            for m in range(0, 400):
+                if m not in p:
+                    continue
+                b_arg = printable_fill(m)
+                a_arg = solve_len(p, sfx + p[m] + b_arg)
+                if a_arg is None or 0 in a_arg:
+                    continue
+                for rest in ([], [b'-O2']):
+                    both(b'adv-tag-arg',
+                         lambda r, a_arg=a_arg, rest=rest, l1=l1: (r.__setitem__(2, l1), r.__setitem__(3, [a_arg] + rest)),
+                         lambda r, b_arg=b_arg, rest=rest, l2=l2: (r.__setitem__(2, l2), r.__setitem__(3, [b_arg] + rest)))
+                found += 1
+                if found >= 3:
+                    break
+    # (b) arguments <-> extra hashes: all-hex arguments whose announced lengths are hex digits too, re-cut into 64s
+    hexlens = [n for n in sorted(p) if 1 <= n <= 200 and p[n] and all(c in HEX for c in p[n])]
+    combos = []
+    for a1 in hexlens:
+        for a2 in hexlens:
+            if (len(p[a1]) + a1 + len(p[a2]) + a2) % 64 == 0:
+                combos.append((a1, a2))
+            for a3 in hexlens[:40]:
+                if (len(p[a1]) + a1 + len(p[a2]) + a2 + len(p[a3]) + a3) % 64 == 0:
+                    combos.append((a1, a2, a3))
+            if len(combos) > 6:
+                break
+        if len(combos) > 6:
+            break
+    for lens in combos[:6]:
+        args = [bytes(HEX[(i + j) % 16] for j in range(n)) for i, n in enumerate(lens)]
+        flat = b''.join(p[len(a)] + a for a in args)
+        chunks = [flat[i:i + 64] for i in range(0, len(flat), 64)]
+        both(b'adv-args-extras',
+             lambda r, args=args: r.__setitem__(3, args),
+             lambda r, chunks=chunks: r.__setitem__(4, chunks))
+    # (c) last argument <-> preprocessor text (result key only: nothing may stand between them)
+    cands = [n for n in sorted(p) if 1 <= n <= 300 and p[n] and 0 not in p[n]]
+    cands.sort(key=lambda n: (p[n][:1] != b'#', n))
+    for n in cands[:8]:
+        a_arg = printable_fill(n, b' 1 "some/file.c"\n' if p[n] == b'#' else b'')
+        a, b = list(base_c), list(base_c)
+        a[3] = [b'-O2', a_arg]
+        b[3] = [b'-O2']
+        b[6] = p[n] + a_arg + text
+        out['key'].append([[b'base', b'adv-arg-text'], [a, b]])
+    # (d) "=" of a variable <-> an argument:  args [K, a2] vs env [(K, v)]  with  p(|a2|) a2 = "=" p(|v|) v
+    K = allow_list('allow_main')[0]
+    found = 0
+    for m in range(0, 300):
+        if m not in p:
+            continue
+        v = printable_fill(m)
+        a2 = solve_len(p, b'=' + p[m] + v)
+        if a2 is None or 0 in a2:
+            continue
+        both(b'adv-env-arg',
+             lambda r, a2=a2: r.__setitem__(3, [K, a2]),
+             lambda r, v=v: r.__setitem__(5, [[K, v]]))
+        found += 1
+        if found >= 3:
+            break
+    # (e) last argument <-> input path (preprocessor-level key): p(n) must be "/" so that the path stays absolute
+    root = ROOT.encode()
+    for n in sorted(p):
+        if p[n] == b'/' and n > len(root) + 2:
+            serial[0] += 1
+            a, b = base_p(serial[0]), base_p(serial[0])
+            a_arg = root[1:] + b'/' + b'a' * (n - len(root) - 1) + b'/'
+            a[3] = [b'-O2', a_arg]
+            b[3] = [b'-O2']
+            b[6] = b'/' + a_arg + a[6]
+            out['ppkey'].append([[b'base', b'adv-arg-path'], [a, b]])
+            break
+    return out
+
+
+def le64(n):
+    return n.to_bytes(8, 'little')
+
+
+def prefix_search(rep, known):
+    from ..prng import Rng
+    p = learn_prefix()
+    if p is None:
+        rep.notes.append('prefix search: what reaches the Digest through HashToDigest is not <announcement of the length> ++ <bytes> for any announcement tried')
+        return
+    deviates = [n for n in sorted(p) if p[n] != le64(n)] + [n for n in range(420) if n not in p]
+    groups = adversarial_groups(p, Rng(rep.seed).fork(ID + ':prefix-search'))
+    info = dict(observed_prefix='8-byte little-endian length' if not deviates else
+                'differs from the 8-byte little-endian length, e.g. p(%d)=%s' % (deviates[0], p.get(deviates[0], b'?').hex()),
+                candidates=sum(len(v) for v in groups.values()), violations=0)
+    by = {l.name: l for l in legs(rep.tier)}
+    for name, gs in groups.items():
+        if not gs:
+            continue
+        leg = by[name]
+        outs = pipeline.run_sharded([pipeline.harness_bin(HARNESS_BIN), name], [sx.dumps(g) for g in gs])
+        for g, o in zip(gs, outs):
+            rep.evaluations += 1
+            io = pipeline.parse_out(o)
+            for v in leg.monitor(g, io):
+                fid = leg.classify(g, io, v)
+                if fid and any(k['id'] == fid for k in known):
+                    rep.known_hits[fid] = rep.known_hits.get(fid, 0) + 1
+                    continue
+                info['violations'] += 1
+                if info['violations'] <= 3:
+                    rep.violation('property', name, g, v + ' (pair built from the length prefix observed on the real '
+                                  'HashToDigest: %s)' % info['observed_prefix'])
+    rep.legs['prefix-search'] = info
+    log('prefix search: %s; %d candidate pairs, %d violations' % (info['observed_prefix'], info['candidates'], info['violations']))
+
+
+def log(*a):
+    pipeline.log(*a)
+
+
 def extra(rep, known):
     CHAIN.close()
-    cleanup()
+    try:
+        prefix_search(rep, known)
+    finally:
+        cleanup()
     if 'key' in rep.legs:
         return
     # The model could not be built (e.g. a side condition of Gen/C02HashSpec_ok.v fails).  Search for a failing
@@ -811,7 +1074,7 @@ def extra(rep, known):
                 nv += 1
                 if nv <= 3:
                     small = case
-                    for cand in shrink(case):
+                    for cand in (leg.shrink(case) if leg.shrink else []):
                         o2 = pipeline.run_sharded([pipeline.harness_bin(HARNESS_BIN), leg.name], [sx.dumps(cand)], 1)
                         v2 = [w for w in leg.monitor(cand, pipeline.parse_out(o2[0])) if not leg.classify(cand, None, w)]
                         if v2:
